@@ -80,6 +80,51 @@ class BddGen:
             self.live.append(kk)
             self.q("onesat %s" % self.a(kk, False))
             self.q("satcount %s %d" % (self.a(kk, r.random() < 0.5), r.choice([64, 128, 130])))
+        # cubes / clauses mixing small variable numbers with numbers >= 64 (bit-set or modulo tricks on variable numbers show
+        # here), and the cofactor operations on exactly those large variables
+        for _ in range(3):
+            small = r.sample(range(1, min(hi, 12) + 1), r.randrange(1, 4))
+            big = r.choice([64, 65, 70, 127, 128, 129, 200, 4096, 65535 + r.randrange(3), 70000, (1 << 30) + 7])
+            lits = [v if r.random() < 0.6 else -v for v in small + [big]]
+            r.shuffle(lits)
+            kk = self.reg("%s %d %s" % (r.choice(["cube", "clause"]), len(lits), " ".join(map(str, lits))), None, False)
+            self.live.append(kk)
+            b = r.randrange(2)
+            for line in ("substm %s 1 %d %d" % (self.a(kk, r.random() < 0.5), big, b),
+                         "subst %s %d %d" % (self.a(kk, r.random() < 0.5), big, 1 - b),
+                         "cofcube %s 1 %d" % (self.a(kk, r.random() < 0.5), big if b else -big),
+                         "substm %s 2 %d %d %d %d" % (self.a(kk, False), small[0], r.randrange(2), big, b),
+                         "compose %s %d %s" % (self.a(kk, False), big, self.a(*self.pick()))):
+                k2 = self.reg(line, None, False)
+                self.live.append(k2)
+            self.q("size %s" % self.a(kk, False))
+            self.q("dot 2 %s %s" % (self.a(kk, False), self.a(kk, True)))
+        # variable numbers >= 2^31: they cannot be written as i32 literals (cube / clause / cofactor_cube, and one_sat / paths
+        # print them as negative numbers: documented bound), so their registers are kept out of the pool the random operations
+        # draw from and only the operations that take u32 variables are applied to them
+        huge = [r.choice([2147483648, 2147483649, 3000000000, 4000000000, 4294967294]) for _ in range(2)]
+        if huge[0] != huge[1]:
+            hv = [self.reg("var %d" % v, None, False) for v in huge]
+            sm = self.pick()
+            g1 = self.reg("and %s %s" % (self.a(hv[0], r.random() < 0.5), self.a(hv[1], r.random() < 0.5)), None, False)
+            g2 = self.reg("or %s %s" % (self.a(hv[0], False), self.a(*sm)), None, False)
+            f1 = self.reg("xor %s %s" % (self.a(g2, False), self.a(hv[1], False)), None, False)
+            for line in ("constrain %s %s" % (self.a(f1, False), self.a(g1, False)),
+                         "restrict %s %s" % (self.a(f1, False), self.a(g1, False)),
+                         "constrain %s %s" % (self.a(f1, True), self.a(hv[0], r.random() < 0.5)),
+                         "constrain %s %s" % (self.a(*sm), self.a(g1, False)),
+                         "restrict %s %s" % (self.a(g2, False), self.a(hv[1], True)),
+                         "compose %s %d %s" % (self.a(f1, False), huge[0], self.a(*sm)),
+                         "subst %s %d %d" % (self.a(f1, False), huge[1], r.randrange(2)),
+                         "substm %s 2 %d 1 %d 0" % (self.a(f1, False), huge[0], huge[1]),
+                         "ite %s %s %s" % (self.a(hv[0], False), self.a(f1, False), self.a(g1, True))):
+                self.reg(line, None, False)
+            self.q("size %s" % self.a(f1, False))
+            self.q("itec %s %s 1" % (self.a(g1, False), self.a(hv[0], False)))
+            self.q("implies %s %s" % (self.a(g1, False), self.a(hv[1], False)))
+            self.q("dot 1 %s" % self.a(f1, False))
+            self.q("bracket %s" % self.a(f1, True))
+            self.classes["vars>=2^31"] += 1
         self.classes["family:wide"] += 1
 
     # ---- bookkeeping
@@ -460,7 +505,14 @@ class BddGen:
             if r.random() < 0.2:
                 roots.append((r.choice([0, 1]), False))     # a constant root
         self.classes["gc:roots=%s" % ("0" if not roots else "1-3" if len(roots) <= 3 else "4+")] += 1
-        self.q("gc %d %s" % (len(roots), " ".join(self.a(*x) for x in roots)))
+        gline = "gc %d %s" % (len(roots), " ".join(self.a(*x) for x in roots))
+        self.q(gline)
+        if getattr(self, "gc_repeat", 0) and not getattr(self, "_gc_repeated", False) and len(self.lines) > 40:
+            # the stratum 'the same collection 2^8 / 2^16 times' (a counter or epoch of a narrow integer type wraps around)
+            self._gc_repeated = True
+            self.classes["gc:repeated-%d" % self.gc_repeat] += 1
+            self.lines += [gline] * (self.gc_repeat - 1)
+            self.stats["gc"] += self.gc_repeat - 1
         self._live_cache = (-1, set())
         if any(k >= len(self.tt) for k, _ in roots):
             return                      # skipped by both runners
